@@ -220,17 +220,43 @@ def run_vh_parallel(arg_lists, timeout=3600, binary=None):
 
     Returns a list of dicts; a crashed worker yields {"crash": rc, "stderr": ...}.
     """
+    # stdout carries the one-line JSON summary; stderr goes to a file: a pipe that nobody drains while the other workers are
+    # being waited for blocks a talkative worker (des prints a warning whenever a second runtime waits for the simulation lock)
+    import tempfile
     procs = []
     for args in arg_lists:
-        procs.append(subprocess.Popen([binary or VH] + args, stdout=subprocess.PIPE, stderr=subprocess.PIPE, text=True))
+        ef = tempfile.TemporaryFile(mode="w+")
+        procs.append((subprocess.Popen([binary or VH] + args, stdout=subprocess.PIPE, stderr=ef, text=True), ef))
     out = []
     deadline = time.time() + timeout
-    for args, p in zip(arg_lists, procs):
+
+    def err_tail(ef):
         try:
-            so, se = p.communicate(timeout=max(1, deadline - time.time()))
+            ef.seek(0, 2)
+            n = ef.tell()
+            ef.seek(max(0, n - 2000))
+            return ef.read()
+        except OSError:
+            return ""
+        finally:
+            ef.close()
+    # read all stdouts concurrently as well
+    from concurrent.futures import ThreadPoolExecutor
+
+    def wait(pe):
+        p, ef = pe
+        try:
+            so, _ = p.communicate(timeout=max(1, deadline - time.time()))
+            return so, False
         except subprocess.TimeoutExpired:
             p.kill()
-            so, se = p.communicate()
+            so, _ = p.communicate()
+            return so, True
+    with ThreadPoolExecutor(max_workers=max(1, len(procs))) as ex:
+        waited = list(ex.map(wait, procs))
+    for args, (p, ef), (so, timed_out) in zip(arg_lists, procs, waited):
+        se = err_tail(ef)
+        if timed_out:
             out.append({"crash": "timeout", "args": args, "stderr": se[-2000:], "stdout_tail": so[-2000:]})
             continue
         lines = [ln for ln in so.splitlines() if ln.strip()]
@@ -249,9 +275,9 @@ def run_vh_parallel(arg_lists, timeout=3600, binary=None):
     # a property of the code under test (the first one may be a starved process on a loaded machine)
     for i, (args, o) in enumerate(zip(arg_lists, out)):
         if isinstance(o, dict) and "hang" in o and "--hang-secs" not in args:
-            log(f"[vh] worker reported no progress for 20 CPU-seconds, re-running it alone: {' '.join(args)[:100]} :: {json.dumps(o['hang'])[:300]}")
+            log(f"[vh] worker reported no progress (20 s of CPU time or 5 min of wall time on one unit of work), re-running it alone: {' '.join(args)[:100]} :: {json.dumps(o['hang'])[:300]}")
             try:
-                r = subprocess.run([binary or VH] + args + ["--hang-secs", "60"], stdout=subprocess.PIPE, stderr=subprocess.PIPE, text=True,
+                r = subprocess.run([binary or VH] + args + ["--hang-secs", "60"], stdout=subprocess.PIPE, stderr=subprocess.DEVNULL, text=True,
                                    timeout=timeout)
                 lines = [ln for ln in r.stdout.splitlines() if ln.strip()]
                 again = json.loads(lines[-1]) if r.returncode == 0 and lines else None
